@@ -47,6 +47,10 @@ func checkEngine(id, tier, replay string) int {
 		o := runConv(env, g, false)
 		nontrivial := o.Nontrivial && (id != "C08" || len(o.Commands) >= 2)
 		rep.Case(run.Hash(g.Device, fmt.Sprint(g.Files)), nontrivial)
+		if o.Crashed {
+			rep.Inconclusive("tool-crash(decided by C01-C04 on the same generators and by C20)")
+			return
+		}
 		if o.Inconclusive != "" {
 			rep.Inconclusive(o.Inconclusive)
 			return
